@@ -35,6 +35,8 @@ def init_text(init):
 USEQ = False       # unit["useq"]: enumeration values used as initial values are written with their type prefix
 
 
+SFC = set()         # unit["sfc"]: POUs whose body is a sequential function chart;  TCOND: the variable a transition tests
+TCOND = {}
 USEQ_ALIAS = False  # unit["useqalias"]: ... initial values of variables / structure elements with the prefix of an alias
 
 
@@ -125,6 +127,10 @@ def stmt_core(o, pou, s, si):
             o.w(src[1], ("use", pn, si, "src", src[1])).w(" + ").w(src[2], ("use", pn, si, "src", src[2]))
         elif src[0] == "fcall":
             o.w(src[1], ("fcall", pn, si)).w("(").w(src[2], ("use", pn, si, "src", src[2])).w(")")
+        elif src[0] == "field":
+            o.w(src[1], ("use", pn, si, "src", src[1])).w(".").w(src[2])
+        elif src[0] == "index":
+            o.w(src[1], ("use", pn, si, "src", src[1])).w("[").w(src[2], ("use", pn, si, "src", src[2])).w("]")
         else:
             raise ValueError(src)
         o.w(";")
@@ -210,8 +216,22 @@ def pou_decl(o, p):
         o.w(" : INT")
     o.w("\n")
     var_blocks(o, p["n"], p["vars"])
-    for si, s in enumerate(p["body"], start=1):
-        statement(o, p, s, si)
+    if p["n"] in SFC:
+        # the body as a sequential function chart: the statements are the body of an action, a transition tests a variable
+        tc = TCOND.get(p["n"], "-")
+        o.w("  INITIAL_STEP s0 :\n    act (N);\n  END_STEP\n  STEP s1 :\n  END_STEP\n")
+        o.w("  TRANSITION FROM s0 TO s1 := ")
+        if tc == "-":
+            o.w("TRUE")
+        else:
+            cond(o, p, tc, 0)
+        o.w(";\n  END_TRANSITION\n  TRANSITION FROM s1 TO s0 := TRUE;\n  END_TRANSITION\n  ACTION act :\n")
+        for si, s in enumerate(p["body"], start=1):
+            statement(o, p, s, si, indent="    ")
+        o.w("  END_ACTION\n")
+    else:
+        for si, s in enumerate(p["body"], start=1):
+            statement(o, p, s, si)
     o.w(kw[1] + "\n")
 
 
@@ -236,8 +256,10 @@ def decl_texts(unit):
     """one (name, text, sites) per top-level declaration, in the unit's order"""
     global USEQ
     USEQ = bool(unit.get("useq"))
-    global USEQ_ALIAS
+    global USEQ_ALIAS, SFC, TCOND
     USEQ_ALIAS = bool(unit.get("useqalias"))
+    SFC = set(unit.get("sfc", []))
+    TCOND = dict(unit.get("tcond", {}))
     out = []
     for t in unit["types"]:
         o = Out()
